@@ -101,6 +101,16 @@ UNITS.append(dict(
     deps=["oh.schedule", "oh.date_filter", "syntax.extended_time", "syntax.sorted_vec"],
 ))
 
+UNITS.append(dict(
+    id="oh.iter",
+    package="",
+    owner="opening-hours/src/opening_hours.rs",
+    harness="kani/oh/verif_iter.rs",
+    modname="verif_iter",
+    modpath="opening_hours::verif_iter",
+    deps=["oh.schedule", "oh.date_filter", "syntax.extended_time", "syntax.sorted_vec"],
+))
+
 VERUS_UNITS = [
     dict(
         id="verus_extended_time",
